@@ -1360,7 +1360,7 @@ def program_phase_isolated(chk, drv, r, work, tier, n_unit):
             msg = open(os.path.join(work, "infra.txt")).read()
         except OSError:
             pass
-        raise C.Infra(f"program phase failed in the child process (status {os.WEXITSTATUS(st)}): {msg[-1500:]}")
+        raise C.ProgramAbort(f"program phase failed in the child process (status {os.WEXITSTATUS(st)}): {msg[-1500:]}")
 
 
 def dump_state(chk, path):
